@@ -96,6 +96,20 @@ pub fn check_string(s: &str, p: &mut Part, pool: Option<&mut Vec<GameVersion>>) 
             ),
         }
     }
+    // ... also where the letter is not ASCII (if such a letter is accepted at all, both cases are, and equal)
+    if !s.is_ascii() {
+        let uni: String = s.chars().flat_map(|c| if c.is_lowercase() { c.to_uppercase().collect::<Vec<_>>() } else { c.to_lowercase().collect::<Vec<_>>() }).collect();
+        if uni != s && uni != f {
+            match guarded(|| GameVersion::from_str(&uni)) {
+                Ok(Ok(b)) if b == v && b.cmp(&v) == Ordering::Equal => {},
+                other => p.violation(
+                    "C16/case-sensitivity",
+                    format!("{:?} parses to {:?} but its other-case spelling {:?} parses to {:?}", s, v, uni, other),
+                    json!({"input": s, "flipped": uni}),
+                ),
+            }
+        }
+    }
     // eq/cmp consistency with itself
     if v != v.clone() || v.cmp(&v.clone()) != Ordering::Equal {
         p.violation("C16/not-reflexive", format!("{:?} (from {:?}) is not equal to itself", v, s), json!({"input": s}));
